@@ -14,6 +14,7 @@ import RpyModel.Drv.Flow
 import RpyModel.Drv.C06
 import RpyModel.Drv.C18
 import RpyModel.Drv.C12
+import RpyModel.Drv.C11
 open Lean
 
 def dispatch (R : Type) [Num R] [Inhabited R] [NatCast R] (kind : String) (j : Json) : Except String Json :=
@@ -32,6 +33,7 @@ def dispatch (R : Type) [Num R] [Inhabited R] [NatCast R] (kind : String) (j : J
   | "explicit_fit" => Drv.handleExplicitFit R j
   | "activation" => Drv.handleActivation j
   | "shapes" => Drv.handleShapes j
+  | "training_history" => Drv.handleTraining R j
   | "graph_check" => Drv.handleGraphCheck j
   | "graph_prog" => Drv.handleGraphProg j
   | "eff_matrix" => Drv.handleEffMatrix R j
